@@ -25,6 +25,29 @@ Theorem c13_own_hosts_match : forall host d, d <> [] -> starts_with_dot d = fals
 Proof. exact host_matches_complete. Qed.
 Print Assumptions c13_own_hosts_match.
 
+(* the pattern list as the code evaluates it (the regexp library's verdict per configured pattern is the
+   input, PErr = the library refuses the pattern): a redirect needs a pattern that really matched whenever
+   patterns are configured, and an unusable pattern met before any match refuses (error), never widens *)
+Theorem c13_patterns : forall domains pats parse,
+  can_redirect_p domains pats parse = Some true ->
+  (exists u, parse = Some u /\ scheme u = https /\ opaque u = false /\ uhost u <> [] /\
+    rawquery u = [] /\ has_dotdot (upath u) = false /\
+    (domains <> [] -> exists d, In d domains /\ dom_spec (hostname u) d)) /\
+  (pats <> [] -> exists pre post, pats = pre ++ PMatch :: post /\ Forall (fun x => x = PNoMatch) pre) /\
+  (domains = [] -> pats <> []).
+Proof. exact can_redirect_p_sound. Qed.
+Print Assumptions c13_patterns.
+
+Theorem c13_unusable_pattern_refuses : forall domains pre post parse,
+  Forall (fun x => x = PNoMatch) pre -> can_redirect_p domains (pre ++ PErr :: post) parse <> Some true.
+Proof. exact pattern_error_refuses. Qed.
+Print Assumptions c13_unusable_pattern_refuses.
+
+Theorem c13_skip_unusable_refuted : exists domains pats parse,
+  can_redirect_p_skip domains pats parse = Some true /\ can_redirect_p domains pats parse = None.
+Proof. exact skip_errors_refuted. Qed.
+Print Assumptions c13_skip_unusable_refuted.
+
 Theorem c13_no_config : forall re parse, can_redirect [] 0 re parse = false.
 Proof. exact no_config_refused. Qed.
 Print Assumptions c13_no_config.
